@@ -167,6 +167,20 @@ def handle (req : J) : J :=
                  (s', acc.2 ++ [obs s' g])) (s0, [obs s0 none])
              okJ (.arr outs)))
      | _, _, _ => .str "bad-request")
+  | .arr [.str "node_paths", mt, srcs, ej, fj] =>
+    (match mt.getStr, srcs.getArr, envsOfJ ej fj with
+     | some mt, some srcs, some envs =>
+       (match parseObjs mt, parseSources (srcs.filterMap J.getStr) with
+        | .error e, _ => .arr [.str "parse-failed", e.toJ]
+        | _, .error e => .arr [.str "parse-failed", e.toJ]
+        | .ok m, .ok ss =>
+          (match fetchRoot envs false m ss with
+           | .error e => e.toJ
+           | .ok (r, _) =>
+             (match extractObj envs 1000 r with
+              | .error e => e.toJ
+              | .ok v => okJ (.arr ((nodePaths 1000 [some []] v).map J.text)))))
+     | _, _, _ => .str "bad-request")
   | _ => .str "bad-op"
 
 partial def loop (h : IO.FS.Stream) (out : IO.FS.Stream) : IO Unit := do
